@@ -89,6 +89,15 @@ int32_t psRsaParseAsnPubKey(psPool_t *pool,
 
         goto L_FAIL;
     }
+    /* A public exponent of 1 (or an even one, or an even modulus) is not
+       an RSA key: with e = 1 the 'signature' is the padded block itself. */
+    if (pstm_iszero(&key->e) || pstm_iseven(&key->e) || pstm_iseven(&key->N) ||
+        pstm_cmp_d(&key->e, 1) == PSTM_EQ)
+    {
+        pstm_clear(&key->N);
+        pstm_clear(&key->e);
+        goto L_FAIL;
+    }
     key->size = pstm_unsigned_bin_size(&key->N);
     key->pool = pool;
 # ifdef USE_TILERA_RSA
